@@ -562,7 +562,7 @@ class SoftwareSwitchBase (object):
       port_no = port.port_no
     except:
       port_no = port
-      port = self.generate_port(port_no, self.dpid)
+      port = self.generate_port(port_no)
     if port_no in self.ports:
       raise RuntimeError("Port %s already exists" % (port_no,))
     self.ports[port_no] = port
